@@ -272,6 +272,10 @@ impl C02 {
         for variant in 0..6u8 {
             deliver(&mut b, vec![TokFault::FooterJsonVariant { variant }]);
         }
+        // another byte string for the same signature scalar (S + kL)
+        for k in 1..=15u8 {
+            deliver(&mut b, vec![TokFault::SigAddOrder { k }]);
+        }
         deliver(&mut b, vec![TokFault::FooterRemove]);
         deliver(&mut b, vec![TokFault::FooterReplace { hex: "00".into() }]);
         deliver(&mut b, vec![TokFault::FooterReplace { hex: hex::encode(b"{\"kid\":\"x\"}") }]);
@@ -478,7 +482,7 @@ impl C02 {
                         }
                         21 => {
                             fk_over = None;
-                            faults.push(TokFault::TextTrailingDot)
+                            faults.push(if purpose == Purp::Public && b.rng.bool() { TokFault::SigAddOrder { k: 1 + b.rng.below(15) as u8 } } else { TokFault::TextTrailingDot })
                         }
                         _ => {
                             let seg = b.rng.pick(&["", "AAAA", "AA", "e30", "x"]).to_string();
